@@ -40,7 +40,7 @@ structure RInv (y : Sys) (pc : Cat) : Prop where
   lq    : ∀ k it, lookup? k y.lasts = some it → it.idx ≤ y.lastIdx ∧ ∀ b ∈ y.queue, it.idx < b.idx
   cidx  : ∀ c ∈ y.clients, c.m.index ≤ y.lastIdx ∧ ∀ b ∈ y.queue, c.m.index < b.idx
   p2    : ∀ c ∈ y.clients, c.m.index ≠ 0 → ∀ it, lookup? c.key y.lasts = some it → it.idx = c.m.index →
-            ViewEq c.m.view it.post
+            IsFilterOf c.authz c.key c.m.view it.post
   pend  : ∀ c ∈ y.clients, c.sub = .opened → ∀ st ∈ c.inbox, StepOk y c.key st
   cpend : ∀ e ∈ y.cache, ∀ st ∈ e.steps, StepOk y e.key st
 
@@ -248,9 +248,11 @@ theorem RInv.publishOne {y : Sys} {pc : Cat} (h : RInv y pc) :
       exact ⟨h1, fun x hx => h2 x (hsub x hx)⟩
     · -- p2
       intro c' hc' hi it hl hidx
-      obtain ⟨c, hc, hm, hk, -⟩ := publishOne_mem hq c' hc'
+      obtain ⟨c, hc, hm, hk, -, -, -, -, -, haz⟩ := publishOne_mem hq c' hc'
       rw [hm] at hi hidx ⊢
+      rw [haz]
       rw [hk, publishOne_lasts hq] at hl
+      rw [hk]
       split at hl
       · simp only [Option.some.injEq] at hl
         subst hl
@@ -260,7 +262,7 @@ theorem RInv.publishOne {y : Sys} {pc : Cat} (h : RInv y pc) :
       · exact h.p2 c hc hi it hl hidx
     · -- pend
       intro c' hc' ho st hst
-      obtain ⟨c, hc, -, hk, -, -, -, hs, hin⟩ := publishOne_mem hq c' hc'
+      obtain ⟨c, hc, -, hk, -, -, -, hs, hin, -⟩ := publishOne_mem hq c' hc'
       have hop := hs ho
       have hat : attached c = true := by simp [attached, hop]
       rw [hk]
@@ -322,7 +324,8 @@ theorem RInv.replace {y : Sys} {pc : Cat} (h : RInv y pc) {c : Client} (c' : Cli
     (hla : ∀ k it, lookup? k la = some it → lookup? k y.lasts = some it)
     (hlb : ∀ k it, lookup? k la = some it → hasBuf (setClient y c') k = true)
     (hidx : c'.m.index ≤ y.lastIdx ∧ ∀ b ∈ y.queue, c'.m.index < b.idx)
-    (hp2 : c'.m.index ≠ 0 → ∀ it, lookup? c.key y.lasts = some it → it.idx = c'.m.index → ViewEq c'.m.view it.post)
+    (hp2 : c'.m.index ≠ 0 → ∀ it, lookup? c.key y.lasts = some it → it.idx = c'.m.index →
+      IsFilterOf c'.authz c'.key c'.m.view it.post)
     (hpend : c'.sub = .opened → ∀ st ∈ c'.inbox, StepOk y c.key st)
     (hca : ∀ en ∈ ca, ∀ st ∈ en.steps, StepOk y en.key st) :
     RInv { setClient { y with cache := ca } c' with lasts := la } pc := by
@@ -373,8 +376,18 @@ theorem handle_index {m : Mat} (hk : HOk m) (st : Step) :
     | stream => right; right; exact ⟨x, rfl, rfl, rfl⟩
     | resume => right; right; exact ⟨x, rfl, rfl, rfl⟩
 
-theorem RInv.next {y : Sys} {pc : Cat} (h : RInv y pc) (hi : Inv y) (id : Nat)
-    (hz : ∀ c, getClient y id = some c → c.authz = .all) : RInv (next y id).1 pc := by
+theorem stepOk_visible {y : Sys} {k : Key} {a : Authz} {st0 st : Step} (hv : visible a k.topic st0 = some st)
+    (h : StepOk y k st0) : StepOk y k st := by
+  cases st0 with
+  | nstf => simp only [visible, Option.some.injEq] at hv; subst hv; trivial
+  | eos i p => simp only [visible, Option.some.injEq] at hv; subst hv; exact h
+  | item it =>
+    simp only [visible] at hv
+    split at hv
+    · cases hv
+    · simp only [Option.some.injEq] at hv; subst hv; exact h
+
+theorem RInv.next {y : Sys} {pc : Cat} (h : RInv y pc) (hi : Inv y) (id : Nat) : RInv (next y id).1 pc := by
   unfold CV.Stream.next CV.Stream.nextWith
   cases hg : getClient y id with
   | none => exact h
@@ -411,38 +424,47 @@ theorem RInv.next {y : Sys} {pc : Cat} (h : RInv y pc) (hi : Inv y) (id : Nat)
       simp only
       cases hin : c.inbox with
       | nil => exact h
-      | cons st rest =>
-        simp only [hz c hg, visible_all]
-        have hs := hi.sim c hc hsub
-        rw [hin] at hs
-        obtain ⟨hk0, hex, -⟩ := hs
-        have hst : StepOk y c.key st := h.pend c hc hsub st (by rw [hin]; exact List.mem_cons_self)
+      | cons st0 rest =>
+        simp only
+        have hk0 := hi.hok c hc
+        have hcons := hi.consume hc hsub hin
+        have hst0 : StepOk y c.key st0 := h.pend c hc hsub st0 (by rw [hin]; exact List.mem_cons_self)
         have hrestok : ∀ s' ∈ rest, StepOk y c.key s' := fun s' hs' =>
           h.pend c hc hsub s' (by rw [hin]; exact List.mem_cons_of_mem _ hs')
-        have hidx : (handle c.m st).index ≤ y.lastIdx ∧ ∀ b ∈ y.queue, (handle c.m st).index < b.idx := by
-          rcases handle_index hk0 st with h0 | ⟨si, post, rfl, h1, -⟩ | ⟨x, rfl, h1, -⟩
-          · rw [h0]; exact hzero
-          · rw [h1]; exact ⟨hst.2.1, hst.1⟩
-          · rw [h1]; exact ⟨hst.2.1, hst.1⟩
-        have hp2 : (handle c.m st).index ≠ 0 → ∀ it, lookup? c.key y.lasts = some it →
-            it.idx = (handle c.m st).index → ViewEq (handle c.m st).view it.post := by
-          intro hne it hl hix
-          have hv := hex hne
-          rcases handle_index hk0 st with h0 | ⟨si, post, rfl, h1, h2⟩ | ⟨x, rfl, h1, h2⟩
-          · exact absurd h0 hne
-          · rw [h2] at hv; rw [h1] at hix
-            exact hv.trans (hst.2.2 it hl hix)
-          · rw [h2] at hv; rw [h1] at hix
-            exact hv.trans (hst.2.2 it hl hix)
-        cases hsi : stepIdx st with
+        cases hv : visible c.authz c.key.topic st0 with
         | none =>
           simp only
-          exact h.replace _ y.cache y.lasts hc rfl rfl (fun _ _ x => x) (hlb _ rfl rfl hsub.symm) hidx hp2
-            (fun _ => hrestok) h.cpend
-        | some i =>
+          exact h.replace _ y.cache y.lasts hc rfl rfl (fun _ _ x => x) (hlb _ rfl rfl hsub.symm) (h.cidx c hc)
+            (h.p2 c hc) (fun _ => hrestok) h.cpend
+        | some st =>
+          rw [hv] at hcons
+          obtain ⟨-, hex, -⟩ := hcons
+          have hst : StepOk y c.key st := stepOk_visible hv hst0
+          have hidx : (handle c.m st).index ≤ y.lastIdx ∧ ∀ b ∈ y.queue, (handle c.m st).index < b.idx := by
+            rcases handle_index hk0 st with h0 | ⟨si, post, rfl, h1, -⟩ | ⟨x, rfl, h1, -⟩
+            · rw [h0]; exact hzero
+            · rw [h1]; exact ⟨hst.2.1, hst.1⟩
+            · rw [h1]; exact ⟨hst.2.1, hst.1⟩
+          have hp2 : (handle c.m st).index ≠ 0 → ∀ it, lookup? c.key y.lasts = some it →
+              it.idx = (handle c.m st).index → IsFilterOf c.authz c.key (handle c.m st).view it.post := by
+            intro hne it hl hix
+            have hv' := hex hne
+            rcases handle_index hk0 st with h0 | ⟨si, post, rfl, h1, h2⟩ | ⟨x, rfl, h1, h2⟩
+            · exact absurd h0 hne
+            · rw [h2] at hv'; rw [h1] at hix
+              exact hv'.congr (hst.2.2 it hl hix)
+            · rw [h2] at hv'; rw [h1] at hix
+              exact hv'.congr (hst.2.2 it hl hix)
           simp only
-          exact h.replace _ y.cache y.lasts hc rfl rfl (fun _ _ x => x) (hlb _ rfl rfl hsub.symm) hidx hp2
-            (fun _ => hrestok) h.cpend
+          cases hsi : stepIdx st with
+          | none =>
+            simp only
+            exact h.replace _ y.cache y.lasts hc rfl rfl (fun _ _ x => x) (hlb _ rfl rfl hsub.symm) hidx hp2
+              (fun _ => hrestok) h.cpend
+          | some i =>
+            simp only
+            exact h.replace _ y.cache y.lasts hc rfl rfl (fun _ _ x => x) (hlb _ rfl rfl hsub.symm) hidx hp2
+              (fun _ => hrestok) h.cpend
 
 theorem RInv.expire {y : Sys} {pc : Cat} (h : RInv y pc) : RInv (expire y) pc := by
   unfold CV.Stream.expire
@@ -565,15 +587,15 @@ theorem resumes_true {c : Client} {last : Option Item} (h : resumes c last = tru
   | none => simp at h2
   | some it => exact ⟨h1, it, rfl, by simpa using h2⟩
 
-/-- the key fact: a client that is resumed holds the current query result -/
+/-- the key fact: a client that is resumed holds (the ACL-filter of) the current query result -/
 theorem resume_view_current {y : Sys} {pc : Cat} (h : RInv y pc) (hq : y.queue = []) {c : Client} (hc : c ∈ y.clients)
-    (hr : resumes c (lookup? c.key y.lasts) = true) : ViewEq c.m.view (query c.key y.cat) := by
+    (hr : resumes c (lookup? c.key y.lasts) = true) : IsFilterOf c.authz c.key c.m.view (query c.key y.cat) := by
   obtain ⟨hne, it, hl, hidx⟩ := resumes_true hr
   have h1 := h.p2 c hc hne it hl hidx
   have h2 := h.lpost c.key it hl
   have hpc : pc = y.cat := by have := h.chain; rw [hq] at this; exact this
   rw [hpc] at h2
-  exact h1.trans h2
+  exact h1.congr h2
 
 theorem cleanSub_of_R {y : Sys} {id : Nat} {c : Client} (hg : getClient y id = some c) (hcl : CleanSubR y id)
     (hr : resumes c (lookup? c.key y.lasts) = false) : CleanSub y id := by
@@ -606,10 +628,16 @@ theorem Inv.subscribeR {y : Sys} {pc : Cat} (h : Inv y) (hr : RInv y pc) (id : N
         obtain ⟨hne, -⟩ := resumes_true hres
         have hv := resume_view_current hr hcl.1 hc hres
         have hkc := h.hok c hc
-        have := h.attach (c' := openSub c []) hc ha' rfl rfl rfl hkc.start (h.exact c hc) (by
-          show Sim c.m.start ([] ++ queueItems c.key y.queue) (query c.key y.cat)
-          rw [hcl.1]
-          exact ⟨hkc.start, fun _ => hv⟩) y.cache (fun e he => Or.inl he)
+        -- the twin of a resumed subscriber holds the current direct-query result itself
+        have htw : ∃ mu, Rel c.authz c.key c.m.start mu ∧
+            Sim mu ([] ++ queueItems c.key y.queue) (query c.key y.cat) := by
+          refine ⟨⟨.resume, query c.key y.cat, c.m.index, query c.key y.cat⟩, ?_, ?_⟩
+          · refine ⟨Or.inl ⟨Or.inr (by simp [Mat.start, hne]), Or.inr rfl, fun _ => by simp [Mat.start, hne]⟩, hv, Iff.rfl⟩
+          · rw [hcl.1]
+            exact ⟨⟨by simp, fun h0 => absurd h0 hne, fun _ => hne, by intro acc hh; simp at hh⟩,
+              fun _ => ViewEq.refl _⟩
+        have := h.attach (c' := openSub c []) hc ha' rfl rfl rfl rfl hkc.start (h.exact c hc) htw
+          (by intro st hst; cases hst) y.cache (fun e he => Or.inl he)
         exact this
       · exact Inv.subscribe h id (cleanSub_of_R hg hcl (by simpa using hres))
 
